@@ -106,14 +106,14 @@ TEXT["C12"] = {
 
 TEXT["C09"] = {
     "technique": "property-based testing (rapid); differential against a reference interpreter of the generated tag tree",
-    "text": "Generated nestings (depth <= 4) of if/elif/else, ifequal/ifnotequal, firstof, for (+empty, reversed, sorted, key/value over sorted maps), cycle (plain/as/silent) and ifchanged over generated lists (typed, []any, written as array literals naming enclosing loop variables, integers beyond 2^53), strings (multi-byte), maps (string, int and any keys), nil and scalars are rendered once on a fresh compile and compared with an independent reference interpreter that implements the semantics stated by the property, including every forloop field and Parentloop chain inside bodies and inside empty branches.",
+    "text": "Generated nestings (depth <= 4) of if/elif/else, ifequal/ifnotequal, firstof, for (+empty, reversed, sorted, key/value over sorted maps), cycle (plain/as/silent) and ifchanged over generated lists (typed, []any, written as array literals naming enclosing loop variables, integers beyond 2^53), strings (multi-byte), maps (string, int and any keys), nil and scalars are rendered once on a fresh compile and compared with an independent reference interpreter that implements the semantics stated by the property, including every forloop field and Parentloop chain inside bodies and inside empty branches. C09.nilvalues loops over maps and lists some of whose elements are nil (typed nil pointers, nil interfaces): one pass per element, the variables bound anew each time.",
     "note": "Trusted: the reference interpreter in harness/props/mm_test.go. ifchanged inside nested loops and unsorted map iteration are outside the asserted fragment (see evidence assumptions).",
     "design_ref": "DESIGN.md section 3, C09",
 }
 
 TEXT["C13"] = {
     "technique": "property-based testing (rapid) + enumeration of small call graphs; differential against a reference interpreter and between the local / imported / aliased forms; crash detection through a write-ahead journal",
-    "text": "Macro signatures (0-4 parameters, any subset with defaults) and call sites (0-5 arguments of several kinds, strings needing escaping) are rendered in three forms - defined locally, imported, imported under an alias - that must agree with each other and with a reference interpreter (positional binding, defaults evaluated in the defining scope, omitted parameters shadow outer names, too many arguments = error, escaping exactly once). Call graphs over 1-3 macros without a base case (direct, mutual, branching; via body, default expression or argument; local / imported / mixed) must end in an execution error with the process alive; the same graphs with a counter terminate and must match the reference. All graphs with out-degree 1 over <= 2 (quick) / 3 (thorough) macros are enumerated.",
+    "text": "Macro signatures (0-4 parameters, any subset with defaults) and call sites (0-5 arguments of several kinds, strings needing escaping) are rendered in three forms - defined locally, imported, imported under an alias - that must agree with each other and with a reference interpreter (positional binding, defaults evaluated in the defining scope, omitted parameters shadow outer names, too many arguments = error, escaping exactly once). Call graphs over 1-3 macros without a base case (direct, mutual, branching; via body, default expression or argument; local / imported / mixed) must end in an execution error with the process alive; the same graphs with a counter terminate and must match the reference. All graphs with out-degree 1 over <= 2 (quick) / 3 (thorough) macros are enumerated. C13.options renders one exported macro (body of text, whitespace, outputs and nested block tags) locally, imported and aliased in sets with every TrimBlocks / LStripBlocks combination: the three forms must give the same bytes.",
     "note": "Trusted: the reference interpreter in harness/props/mm_test.go; the driver's journal/confirmation logic for process deaths.",
     "design_ref": "DESIGN.md section 3, C13",
 }
